@@ -102,6 +102,21 @@ def codeTree (pre : Bytes) (ix : List Nat) : STree → List Call
     (expandParts w.parts).flatMap fun a => codeList (pre ++ w.head ++ a ++ [47]) ix kids 0
 end
 
+/-- number of concrete spellings of the enumerations of a name -/
+def partsCount : List (Bytes × Bytes) → Nat
+  | [] => 1
+  | (ds, _) :: r => decVal ds * partsCount r
+
+mutual
+/-- number of (leaf, concrete address) pairs of a tree -/
+def countList : List STree → Nat
+  | [] => 0
+  | t :: r => countTree t + countList r
+def countTree : STree → Nat
+  | .leaf w _ => partsCount w.parts
+  | .sub w _ kids => partsCount w.parts * countList kids
+end
+
 /-! ### Well-formedness (decidable) -/
 
 def textOk (t : Bytes) : Bool := t.all litChar
